@@ -234,7 +234,7 @@ def _r3_r9(ctx):
         for bb, tm in b.calls():
             if (callee_name(tm) or "").endswith("::unwrap_or"):
                 dfl.append(norm(T.call_args(bb)[1]))
-        ctx.check(dfl == [("const", True)], "R9", "absent-subnet-condition-matches", ctx.where(b), "unwrap_or default(s): %s" % [show(d) for d in dfl])
+        ctx.check([const_of(d) for d in dfl] == [True] and all(len(d) == 3 for d in dfl), "R9", "absent-subnet-condition-matches", ctx.where(b), "unwrap_or default(s): %s" % [show(d) for d in dfl])
         # the result is Some(&permission) only when the conjunction holds
         somes = [(bb, idx, s) for bb, idx, s in b.stmts() if s["p"] == (0,) and "rv" in s and s["rv"]["k"] == "agg" and s["rv"].get("variant") == "Some"]
         okk = bool(somes)
@@ -438,11 +438,11 @@ def _r7(ctx):
         if want["unix"] is None:
             okk = unix[0] == "agg" and unix[2] == "None"
         else:
-            okk = unix[0] == "agg" and unix[2] == "Some" and norm(unix[3][0][1]) == ("const", want["unix"])
+            okk = unix[0] == "agg" and unix[2] == "Some" and const_of(unix[3][0][1]) is want["unix"]
         ctx.check(okk, "R7", "default-acl[%d]:unix-condition" % i, where, "expected %s, found %s" % (want["unix"], show(unix)[:60]))
         dns = norm(perm.get("allow_dns_recursion", ("unknown",)))
-        ctx.check(dns == ("const", want["dns"]), "R7", "default-acl[%d]:dns-recursion=%s" % (i, want["dns"]), where, "found %s" % show(dns))
-        granted = {k for k, v in perm.items() if norm(v) == ("const", True)}
+        ctx.check(dns[0] == "const" and dns[1] is want["dns"], "R7", "default-acl[%d]:dns-recursion=%s" % (i, want["dns"]), where, "found %s" % show(dns))
+        granted = {k for k, v in perm.items() if const_of(v) is True}
         ctx.check(want["http_min"] <= granted, "R7", "default-acl[%d]:http-ro-granted" % i, where, "granted %s" % sorted(granted))
 
 
